@@ -178,4 +178,36 @@ CATALOGUE = [
     dict(id="c17-silent-rename-local", props=["C17"], file=OPS + "fm_metrics.py", expect="silent",
          old="        _features = list(self._features_by_name.keys())\n        result = self.construct_result(\n            name=name, doc=self.features.__doc__, result=_features, size=len(_features)",
          new="        names = [f.name for f in self._features]\n        result = self.construct_result(\n            name=name, doc=self.features.__doc__, result=names, size=len(names)"),
+    # ---- C05 ------------------------------------------------------------------------------------
+    dict(id="c05-swap-card", props=["C05"], file=TR + "json_reader.py", rule="C05-KIND",
+         old="new_relation = Relation(feature, children, card_min, card_max)",
+         new="new_relation = Relation(feature, children, card_max, card_min)"),
+    dict(id="c05-abstract-str", props=["C05"], file=TR + "json_writer.py", rule="C05-TYPE",
+         old="    feature_info['abstract'] = feature.is_abstract",
+         new="    feature_info['abstract'] = str(feature.is_abstract)\n    feature_info['abstract'] = feature_info['abstract'] == 'False'"),
+    # the reader rebuilds (0,1,all children) from OPTIONAL as well: the model comes back unchanged
+    dict(id="c05-silent-mutex-as-optional", props=["C05"], file=TR + "json_writer.py", expect="silent",
+         old="            relation_type = JSONFeatureType.MUTEX.value",
+         new="            relation_type = JSONFeatureType.OPTIONAL.value"),
+    dict(id="c05-reader-no-unquote", props=["C05"], file=TR + "json_reader.py", rule="C05-ENC",
+         old="    feature_name = unsafename(feature_node['name'])", new="    feature_name = feature_node['name']"),
+    dict(id="c05-xor-as-or", props=["C05"], file=TR + "json_reader.py", rule="C05-VOC",
+         old="node = functools.reduce(lambda lambd, r: Node(ASTOperation.XOR, lambd, r), op_list)",
+         new="node = functools.reduce(lambda lambd, r: Node(ASTOperation.OR, lambd, r), op_list)"),
+    dict(id="c05-and-binary-only", props=["C05"], file=TR + "json_reader.py", rule="C05-FOLD",
+         old="        node = functools.reduce(lambda lambd, r: Node(ASTOperation.AND, lambd, r), op_list)",
+         new="        node = Node(ASTOperation.AND, op_list[0], op_list[1])"),
+    dict(id="c05-drop-attr-value-false", props=["C05"], file=TR + "json_writer.py", rule="C05-FIELDS",
+         old="        if attribute.default_value is not None:\n            attr_info['value']",
+         new="        if attribute.default_value:\n            attr_info['value']"),
+    dict(id="c05-parse-json-no-ctcs", props=["C05"], file=TR + "json_reader.py", rule="C05-SIBLING",
+         old="        constraints = parse_constraints(constraints_info)\n        return FeatureModel(root_feature, constraints)\n\n\ndef parse_tree",
+         new="        constraints = parse_constraints(constraints_info)\n        return FeatureModel(root_feature, [])\n\n\ndef parse_tree"),
+    dict(id="c05-return-differs", props=["C05"], file=TR + "json_writer.py", rule="C05-DUMP",
+         old="        return json.dumps(json_object, indent=4)", new="        return json.dumps(json_object, indent=2)"),
+    dict(id="c05-ctc-name-lost", props=["C05"], file=TR + "json_reader.py", rule="C05-FIELDS",
+         old="        ctc = Constraint(name, AST(ctc_node))", new="        ctc = Constraint(str(len(constraints)), AST(ctc_node))"),
+    dict(id="c05-silent-dict-dispatch", props=["C05"], file=TR + "json_reader.py", expect="silent",
+         old="            if relation_type == JSONFeatureType.OPTIONAL.value:\n                new_relation = Relation(feature, children, 0, 1)\n            elif relation_type == JSONFeatureType.MANDATORY.value:",
+         new="            if relation_type == 'OPTIONAL':\n                new_relation = Relation(parent=feature, children=children, card_min=0, card_max=1)\n            elif relation_type == JSONFeatureType.MANDATORY.value:"),
 ]
